@@ -206,12 +206,41 @@ func (l *persistentLog) Open() error {
 	return nil
 }
 
+// countingReader counts the number of bytes read through it.
+type countingReader struct {
+	reader io.Reader
+	count  int64
+}
+
+func (c *countingReader) Read(p []byte) (int, error) {
+	n, err := c.reader.Read(p)
+	c.count += int64(n)
+	return n, err
+}
+
 func (l *persistentLog) Replay() error {
-	reader := bufio.NewReader(l.file)
+	reader := &countingReader{reader: bufio.NewReader(l.file)}
 
 	for {
+		// The offset of the end of the last complete entry.
+		offset := reader.count
+
 		entry, err := decodeLogEntry(reader)
-		if errors.Is(err, io.EOF) {
+		if errors.Is(err, io.EOF) && reader.count == offset {
+			break
+		}
+		if errors.Is(err, io.EOF) || errors.Is(err, io.ErrUnexpectedEOF) {
+			// The last entry was only partially written before a crash. It was
+			// never acknowledged, discard it so that new entries are not appended after it.
+			if err := l.file.Truncate(offset); err != nil {
+				return fmt.Errorf("could not truncate partially written log entry: %w", err)
+			}
+			if _, err := l.file.Seek(offset, io.SeekStart); err != nil {
+				return fmt.Errorf("could not seek log file: %w", err)
+			}
+			if err := l.file.Sync(); err != nil {
+				return fmt.Errorf("could not sync log file: %w", err)
+			}
 			break
 		}
 		if err != nil {
